@@ -204,8 +204,9 @@ def check_decls(decls, radix, order, with_stores, p):
             lines = ["li x1, 0xA1B2C3D4"]
             m2 = dict(mem)
             last = None
-            for mn, ref, ea, sz in chunk:
-                lines.append(f"{mn} x1, {ref}, x2")
+            for si_, (mn, ref, ea, sz) in enumerate(chunk):
+                # operand notations mixed: x-number / ABI name for the value and the scratch register (x1 = ra, x2 = sp)
+                lines.append(f"{mn} {('x1', 'ra')[(si_ // 2) % 2]}, {ref}, {('x2', 'sp')[si_ % 2]}")
                 for j in range(sz):
                     m2[ea + j] = (0xA1B2C3D4 >> (8 * j)) & 0xFF
                 last = ea
